@@ -79,9 +79,9 @@ def judge_impl(cases, obs):
         if any(str(f) == "1" for f in flags):
             continue                       # some subscription has not ended
         # recorders subscribed to window / group observables are subscriptions too: all of them must have ended
-        n_children = sum(1 for (u, i, ev) in ob["log"] if ev == ["n", ["obs"]])
+        n_children = sum(1 for (u, _a, ev) in ob["log"] if ev == ["n", ["obs"]])
         ended_children = set()
-        for (u, i, ev) in ob["log"]:
+        for (u, _a, ev) in ob["log"]:
             if u.startswith("c") and ev[0] in ("c", "e"):
                 ended_children.add(u)
         if n_children != len(ended_children):
